@@ -191,6 +191,8 @@ def main(argv=None):
         run_peewee(ck, 6 if quick else 150, ck.seed)
     if not quick:
         run_sigkill(ck, 40, ck.seed % 1000)
+        if have_driver:
+            c06_state.run_sigkill(ck, 30, ck.seed % 1000)     # real crashes against the state model
 
     ck.assumptions += [
         "SQLite oracle (Model/Commit.v header): a write statement joins the connection's single open transaction, "
